@@ -285,6 +285,21 @@ func nonNilAt(v ssa.Value, b *ssa.BasicBlock, depth int) bool {
 			return true
 		}
 	}
+	// the result of an in-scope function every return of which is non-nil (e.g. a helper mapping nil to ErrCancelled)
+	if call, ok := v.(*ssa.Call); ok {
+		if callee := call.Call.StaticCallee(); callee != nil && callee.Blocks != nil && callee.Signature.Results().Len() == 1 {
+			rets := returnsOf(callee)
+			all := len(rets) > 0
+			for _, r := range rets {
+				if !nonNilAt(r.Results[0], r.Block(), depth+1) {
+					all = false
+				}
+			}
+			if all {
+				return true
+			}
+		}
+	}
 	if ph, ok := v.(*ssa.Phi); ok {
 		for i, e := range ph.Edges {
 			pred := ph.Block().Preds[i]
